@@ -43,7 +43,7 @@ SPEC = {
             "order, merge over 1-3 neighbours, new id swallowing several regions, unbounded end keys, removals), each "
             "followed by 1-4 queries (get/search/searchprev/scan with limit/overlaps/adjacent/len/per-store counts and "
             "sizes/total/store regions/random picks, 4 draws each) and periodic dumps of every tree; key spaces: 8 one-byte "
-            "keys, 10^6 three-byte keys, variable-length keys; 1 sequence in 160 (quick; 1 in 100 thorough) is a grow-shrink-grow history with 280-440 contiguous regions on 2-4 stores (put all in ascending/descending/shuffled order, remove all but 20-70, put them again) so that the main tree and the sub-trees split, collapse and re-use freed btree nodes, probed after each phase with random picks restricted to single-region ranges (a panicking pick is recovered and reported as `panic`: sig=C07.random-pick-panicked), lookups, scans and counters; about once per 70 mutations a `bounce` op runs a writer goroutine that transfers the leadership of a cached region back and forth (PutRegion) while 1500 reads poll BasicCluster.GetStoreRegionCount/Size of both stores (every value seen is reported; exactly one is allowed); GetStoreRegions and random picks report the returned OBJECTS (id/size/epoch, `id~stale` for a pick that is not the served RegionInfo); every 8th sequence drives pkg/btree alone (degrees 2,3,4,64; insert/replace/delete/Get/GetAt/GetWithIndex/Ascend*/Descend*/DeleteMin/Max, up to ~1900 ops) against the ordered-list abstraction; every 5th sequence is the malformed stream (empty/inverted "
+            "keys, 10^6 three-byte keys, variable-length keys; 1 sequence in 160 (quick; 1 in 100 thorough) is a grow-shrink-grow history with 280-440 contiguous regions on 2-4 stores (put all in ascending/descending/shuffled order, remove all but 20-70, put them again) so that the main tree and the sub-trees split, collapse and re-use freed btree nodes, probed after each phase with random picks restricted to single-region ranges (a panicking pick is recovered and reported as `panic`: sig=C07.random-pick-panicked), lookups, scans and counters; about once per 40 mutations `remove-stale`: put with the leader moved (sometimes other pending peers), then RemoveRegion with the OLD RegionInfo (op `rmstale`, the DropCacheRegion race), then per-store counts / listings / picks on every store of the region; about once per 70 mutations a `bounce` op runs a writer goroutine that transfers the leadership of a cached region back and forth (PutRegion) while 1500 reads poll BasicCluster.GetStoreRegionCount/Size of both stores (every value seen is reported; exactly one is allowed); GetStoreRegions and random picks report the returned OBJECTS (id/size/epoch, `id~stale` for a pick that is not the served RegionInfo); every 8th sequence drives pkg/btree alone (degrees 2,3,4,64; insert/replace/delete/Get/GetAt/GetWithIndex/Ascend*/Descend*/DeleteMin/Max, up to ~1900 ops) against the ordered-list abstraction; every 5th sequence is the malformed stream (empty/inverted "
             "ranges, two peers on a store, pending peer without peer, RemoveRegion with a foreign object); non-trivial = at "
             "least 10 puts, one displacing put, one removal and a lookup; distinct = distinct op sequence",
     "model_text": "PdModel/Model/RegionTree.lean: regionTree (find/getOverlaps/update/remove/updateStat/scanRange/"
